@@ -1,4 +1,5 @@
 import itertools
+import re
 
 from core import Property
 from props.c16 import enc
@@ -146,6 +147,7 @@ def random_interleaving(rng, chunks, ending, misuse=False):
 
 def rand_frame(rng):
     t = rng.choice([0, 0, 0, 1, 1, 3, 4, 5, 7, 0x0d, 2, 6, 8, 9, 0x21, 0x21 + 0x1f * rng.randrange(1, 2 ** 20), 0x0a,
+                    0x0e, 0x0c, 0x89, 0xf0700, 0xf0701, GREASE8, 0x21 + 0x1f * rng.randrange(2 ** 30, 2 ** 55),
                     rng.getrandbits(rng.choice([6, 14, 30, 62]))])
     tl = rng.choice([l for l in (1, 2, 4, 8) if t < 2 ** (8 * l - 2)])
     if t in (3, 7, 0x0d):
@@ -196,6 +198,95 @@ def rand_chunking(rng, s):
         c = min(c, len(rest))
         out.append(rest[:c])
         rest = rest[c:]
+    return out
+
+
+# ---- beyond the exhaustive alphabet: other unknown types (non-grease, registered extensions such as ORIGIN 0x0c, ACCEPT_CH
+# 0x89, PRIORITY_UPDATE 0xf0700/1; 2/4/8-byte type varints), payloads whose length needs a 2- or 4-byte varint,
+# non-minimal length varints, and long runs of short frames
+GREASE8 = 0x21 + 0x1f * (2 ** 40 + 12345)
+EXT_TYPES = [0x0e, 0x0c, 0x40, 0x89, 0xf0700, 0xf0701, GREASE8, 0x21, 0x2f, 0, 1, 2, 6, 8, 9]
+FILL = bytes((7, 1, 4, 0, 0, 3, 1, 2)) * 2048
+
+
+def mk(t, payload, ll=None, declared=None):
+    tl = 1 if t < 64 else 2 if t < 2 ** 14 else 4 if t < 2 ** 30 else 8
+    L = len(payload) if declared is None else declared
+    if ll is None:
+        ll = 1 if L < 64 else 2 if L < 2 ** 14 else 4
+    return enc(t, tl) + enc(L, ll) + payload
+
+
+def few_chunkings(rng, s, frames=None):
+    out = [[s]]
+    if frames and len(frames) > 1:
+        out.append(list(frames))
+    if len(s) > 2:
+        out.append(rand_chunking(rng, s))
+        c = rng.randint(1, len(s) - 1)
+        out.append([s[:c], s[c:]])
+    return out
+
+
+def ext_cases(rng, tier):
+    out = []
+    tail = mk(1, b'\xaa\xbb')
+    for t in EXT_TYPES:
+        for L in (0, 3, 63, 64, 16383, 16384):
+            if L > 64 and t in (0x40, 0x89, 0xf0701, 0x2f, 2, 6, 8, 9):
+                continue
+            for frames in ([mk(t, FILL[:L])], [mk(1, b'\x00\x01'), mk(t, FILL[:L]), mk(0, b'xyz')], [mk(t, FILL[:L]), tail]):
+                s = b''.join(frames)
+                for e in ('F', ''):
+                    for ch in few_chunkings(rng, s, frames)[:(2 if L > 64 else 4)]:
+                        out.append(batch(ch, e, 2 * len(frames) + len(ch) + 6))
+                if L <= 64:
+                    out.append(incremental(rand_chunking(rng, s), 'F', 1))
+        for ll in (2, 4, 8):
+            s = mk(t, b'abc', ll=ll) + tail
+            out.append(batch([s], 'F', 8))
+            out.append(incremental(rand_chunking(rng, s), rng.choice(['F', '']), 1))
+    return out
+
+
+def run_cases_long(rng, tier):
+    out = []
+    u0, g8, d0, d1, un = mk(0x21, b''), mk(GREASE8, b''), mk(0, b''), mk(0, b'z'), mk(0x0e, b'\x01\x02\x00')
+    for k in ((20, 33, 100, 300) if tier == 'quick' else (20, 33, 40, 64, 100, 200, 300)):
+        for unit in ([u0], [g8], [d0], [d1], [un], [u0, d0, un, d1], [mk(7, b'\x04') if False else u0, g8]):
+            frames = (unit * k)[:k] + [mk(1, b'\xaa\xbb')]
+            s = b''.join(frames)
+            for e in ('F', ''):
+                out.append(batch([s], e, 2 * k + 8))
+            out.append('fs ' + ','.join(x for f in frames for x in ('c' + f.hex(), 'p', 'p')) + ',F,p,p,p')
+            ch = rand_chunking(rng, s)
+            out.append(batch(ch, 'F', 2 * k + len(ch) + 8))
+            out.append(random_interleaving(rng, rand_chunking(rng, s), rng.choice(['F', ''])))
+    return out
+
+
+REQ = bytes.fromhex('0000d1d7500161c1')
+RESP = bytes.fromhex('0000d9')
+
+
+def hc_cases():
+    """streams whose frame-layer outcome is an error: the code must be the one the REAL handlers raise (request-stream
+    handler on a server / a client, poll_control for the control stream)"""
+    out = []
+    bad = [('07020400', ''), ('0700', ''), ('03020400', ''), ('0d00', ''), ('0500', ''), ('0200', ''), ('0600', ''), ('0800aabb', ''),
+           ('0901ff', ''), ('07', 'F'), ('0701', 'F'), ('0103aa', 'F'), ('2105aa', 'F'), ('40', 'F'), ('0e0440', 'F'), ('0004ab', 'F')]
+    for site in ('s', 'c'):
+        head = mk(1, REQ if site == 's' else RESP).hex()
+        for b, e in bad:
+            for pre in ('', head, head + '0002abcd', head + '2100'):
+                if b.startswith('00') and not pre:
+                    continue          # DATA before HEADERS is a request-level matter (C03)
+                out.append('hc %s %s %s' % (site, pre + b, e or '-'))
+    for b, e in bad:
+        if b.startswith('00') or b.startswith('01') or b.startswith('05'):
+            continue                  # DATA / HEADERS / PUSH_PROMISE on the control stream: C04's rules come first
+        for pre in ('', '2100', '0e03aabbcc'):
+            out.append('hc ctl %s %s' % (pre + b, e or '-'))
     return out
 
 
@@ -277,8 +368,13 @@ class P(Property):
             'seeded 8 of 32 for length 6 and 3 of 64 for length 7) x {FIN, RESET, open} x {all arrivals then polls, polls '
             'after every arrival}; plus seeded random long '
             'streams (realistic frames, mutated lengths/payloads, truncations) with random chunkings and random '
-            'interleavings of arrivals and calls, some with out-of-contract poll_next/poll_data calls; fd: Frame::decode '
-            'on every alphabet string and on random ones; fe: the error-code table. non-trivial = distinct cases whose '
+            'interleavings of arrivals and calls, some with out-of-contract poll_next/poll_data calls; further unknown types '
+            '(0x0e, ORIGIN 0x0c, 0x40, ACCEPT_CH 0x89, PRIORITY_UPDATE 0xf0700/1, 8-byte grease) and HTTP/2 types with payloads of '
+            '0/3/63/64/16383/16384 bytes (1/2/4-byte and non-minimal 2/4/8-byte length varints) alone, inside and before other '
+            'frames; runs of 20..300 unknown / grease / zero-length DATA / 1-byte DATA / mixed frames followed by HEADERS, whole, one '
+            'frame per chunk and randomly chunked; fd: Frame::decode on every alphabet string and on random ones against one step '
+            'of the reference reader; hc: 150 streams ending in a frame-layer error fed to the REAL server / client request path '
+            'and to the control stream (poll_control), the close code observed on the transport; fe: the error-code table. non-trivial = distinct cases whose '
             'implementation result contains a frame, DATA bytes or a frame-layer error')
 
     def cases(self, tier, rng):
@@ -305,6 +401,9 @@ class P(Property):
                     # polls after every arrival: for the longest strings of the quick tier only with FIN
                     if len(ch) > 1 and (tier != 'quick' or n < 5 or e == 'F'):
                         out.append(incremental(ch, e, 1))
+        out += ext_cases(rng, tier)
+        out += run_cases_long(rng, tier)
+        out += hc_cases()
         for _ in range(4000 if tier == 'quick' else 60000):
             s = rand_stream(rng)
             out.append('fd ' + (s[:rng.randint(0, min(len(s), 40))].hex() or '-'))
@@ -316,8 +415,9 @@ class P(Property):
 
     def canon(self, case, out):
         if out.startswith('panic'):
-            return 'panic'
-        return out
+            return 'PANIC-OUTSIDE-A-CALL'
+        # a panic inside a call is a result token; the model knows the site, the implementation only that it panicked
+        return re.sub(r'panic:\d+', 'panic', out)
 
     def spec_ok(self, case, out, spec):
         if spec is None:
@@ -325,14 +425,36 @@ class P(Property):
         w = case.split()
         if w[0] == 'fe':
             return spec.split()[1] in ('*', out.split()[1])
+        if w[0] == 'fd':
+            # Frame::decode on a flat buffer against one step of the reference reader (the Incomplete estimate is free)
+            if spec.startswith('err incomplete'):
+                return out.startswith('err incomplete:')
+            return out == spec
+        if w[0] == 'hc':
+            return out == spec and out != 'code -'
         if w[0] != 'fs':
-            return True
+            return False
         acts = w[1].split(',') if len(w) > 1 else []
-        if out.startswith('panic'):
-            # only a caller that breaks the documented contract (poll_next while DATA is owed) may see a panic
-            return 'n' in acts
+        out = self.canon(case, out)
         if not out.startswith('ok'):
             return False
+        res = out.split()[1:]
+        if 'panic' in res:
+            # the only panic the contract allows: poll_next (`n`) called while DATA payload bytes are owed, and it is
+            # the last result
+            i = res.index('panic')
+            calls = [a for a in acts if a in ('p', 'n', 'd')]
+            if i != len(res) - 1 or i >= len(calls) or calls[i] != 'n':
+                return False
+            owed = 0
+            for x in res[:i]:
+                if x.startswith('f:data:'):
+                    owed = int(x[7:])
+                elif x.startswith('d:'):
+                    owed -= len(x[2:]) // 2
+            if owed <= 0:
+                return False
+            out = ' '.join(['ok'] + res[:i])
         toks, tail, pend, code = parse_obs(out)
         stoks, stail, scode = parse_spec(spec)
         arrivals = [a for a in acts if a[0] in 'cFRXT']
